@@ -224,7 +224,7 @@ func runLayouts(w *fw.Worker, id string) {
 				if !w.Quick() {
 					stride = 60
 				}
-				cli := cliN%stride == 0
+				cli := cliN%stride == 0 || endLayout(labels, made) // every layout that differs at the end of the file goes through the CLI
 				w.Case(src, func() *fw.Violation {
 					if dev > 0 {
 						w.Nontrivial()
@@ -249,6 +249,15 @@ func runLayouts(w *fw.Worker, id string) {
 	}
 }
 
+func endLayout(labels []string, made []int) bool {
+	for i, l := range labels {
+		if (l == "no-final-newline" || l == "vertical:file-end") && made[i] != 0 {
+			return true
+		}
+	}
+	return false
+}
+
 func litNewline(labels []string, made []int) bool {
 	for i, l := range labels {
 		if strings.HasPrefix(l, "lit-") && made[i] != 0 {
@@ -267,6 +276,12 @@ func baseChoice(label string, v int) int {
 		return 0
 	case strings.HasPrefix(label, "vertical:"):
 		if v == 2 || v == 3 {
+			return 1
+		}
+	case label == "no-final-newline":
+		return 0
+	case label == "trailing-comment":
+		if v == 2 { // blanks after the comment text are not part of the comment
 			return 1
 		}
 	}
